@@ -337,3 +337,11 @@ for _k, _t in (('puback_props127', 'thorough'), ('puback_props128', 'opt'), ('pu
     K('c02_v5_' + _k, {'C02': _t, 'C03': 'thorough'}, est=600, timeout=3600, stubs=_st, mem='XL',
       bounds='v5.0 %s with reason code and one Reason String so that the property section is %s bytes (Property Length field one/two bytes); id, first and last string byte symbolic' % (_k.split('_')[0].upper(), _k[-3:]),
       symbolic='id, first byte, last byte', encodes=['v5_0 ack builder/size/to_continuous_buffer/parse', 'Properties::{parse,size,to_continuous_buffer}', 'MqttString'])
+S('st_send_pubrel_states_v311', {'C15': 'quick', 'C06': 'quick', 'C11': 'thorough'}, est=400,
+  bounds='PUBREL(k) sent by a v3.1.1 client in every status x need_store, keep-alive symbolic', symbolic='status, need_store, keep-alive, k', encodes=['process_send_v3_1_1_pubrel', 'send_post_process'])
+S('st_send_connack_v5_resume_count', {'C12': 'quick', 'C06': 'thorough', 'C16': 'thorough'}, stubs=_st, est=900, mem='L', timeout=3600,
+  bounds='v5.0 server sends CONNACK(success, session present) with one stored QoS1 PUBLISH, Receive Maximum M (all u16 >= 1), then receives its PUBACK', symbolic='M, i',
+  encodes=['process_send_v5_0_connack', 'send_stored', 'process_recv_v5_0_puback', 'get_receive_maximum_vacancy_for_send'])
+S('st_recv_publish_v5_recv_max', {'C12': 'quick', 'C19': 'thorough'}, stubs=_st, est=900, mem='L', timeout=3600,
+  bounds='v5.0 QoS1/2 PUBLISH received by a client that announced Receive Maximum 2 with 1 or 2 publishes outstanding', symbolic='a, b, r, QoS, full?',
+  encodes=['process_recv_v5_0_publish', 'handle_v5_0_error'])
